@@ -57,6 +57,7 @@ fc8a7a4:C18
 4480891:C04,C01
 d61bc2a:C19
 306c68e:C03
+f411dd9:C17
 "
 [ -n "$REVERT_ONLY" ] && PAIRS="$REVERT_ONLY"
 for pair in $PAIRS; do
